@@ -67,6 +67,20 @@ def aorsmul_1_add (s : St) (w x : Nat) (y : Nat) (wneg : Bool) (wsize xsize : Na
     let s := s.store wp 0 cy                                                  -- :130 (dsize = 0)
     s.setSize w (sgn wneg (new_wsize + (if cy != 0 then 1 else 0)))           -- :131, 188
 
+/-- aorsmul_i.c:144-154, 185-188: the borrow `cy` out of w decides — two's-complement negate into `new_wsize + 1` limbs and flip
+    the sign, or keep; then MPN_NORMALIZE and the size store -/
+def aorsmul_1_subGeFix (s : St) (w : Nat) (wneg : Bool) (new_wsize cy : Nat) : St :=
+  let wp := s.PTR w
+  if cy != 0 then                                                             -- :144
+    let s := s.store wp new_wsize (B - 1 - (B - cy) % B)                      -- :148 wp[new_wsize] = ~-cy
+    let s := mpn_not s wp new_wsize                                           -- :149
+    let s := MPN_INCR_U s wp (new_wsize + 1)                                  -- :150-151
+    let (n, s) := MPN_NORMALIZE s wp (new_wsize + 1)                          -- :185
+    s.setSize w (sgn (!wneg) n)                                               -- :152, 188
+  else
+    let (n, s) := MPN_NORMALIZE s wp new_wsize                                -- :185
+    s.setSize w (sgn wneg n)                                                  -- :188
+
 /-- aorsmul_i.c:137-154, 185-188 "submul of absolute values", wsize ≥ xsize -/
 def aorsmul_1_sub_ge (s : St) (w x : Nat) (y : Nat) (wneg : Bool) (wsize xsize : Nat) : St :=
   let new_wsize := max wsize xsize
@@ -74,19 +88,10 @@ def aorsmul_1_sub_ge (s : St) (w x : Nat) (y : Nat) (wneg : Bool) (wsize xsize :
   let xp := s.PTR x
   let min_size := min wsize xsize
   let (s, cy) := mpn_submul_1 s wp xp min_size y                              -- :137
-  let (s, cy) :=
-    if wsize != xsize then mpn_sub_1 s (wp.add xsize) (wp.add xsize) (wsize - xsize) cy   -- :141-142
-    else (s, cy)
-  if cy != 0 then                                                             -- :144
-    let s := s.store wp new_wsize (B - 1 - (B - cy) % B)                      -- :148 wp[new_wsize] = ~-cy
-    let s := mpn_not s wp new_wsize                                           -- :149
-    let new_wsize := new_wsize + 1                                            -- :150
-    let s := MPN_INCR_U s wp new_wsize                                        -- :151
-    let (new_wsize, s) := MPN_NORMALIZE s wp new_wsize                        -- :185
-    s.setSize w (sgn (!wneg) new_wsize)                                       -- :152, 188
-  else
-    let (new_wsize, s) := MPN_NORMALIZE s wp new_wsize                        -- :185
-    s.setSize w (sgn wneg new_wsize)                                          -- :188
+  if wsize != xsize then                                                      -- :141
+    let (s, cy) := mpn_sub_1 s (wp.add xsize) (wp.add xsize) (wsize - xsize) cy   -- :142
+    aorsmul_1_subGeFix s w wneg new_wsize cy
+  else aorsmul_1_subGeFix s w wneg new_wsize cy
 
 /-- aorsmul_i.c:137, 155-188 "submul of absolute values", wsize < xsize -/
 def aorsmul_1_sub_lt (s : St) (w x : Nat) (y : Nat) (wneg : Bool) (wsize xsize : Nat) : St :=
